@@ -364,6 +364,7 @@ func (u *Unit) registerModels() {
 			return VStr{fx.def("ustr", seqOfBytes(fx, st, b))}
 		})
 	registerMoreModels(u)
+	registerRESTModels(u)
 }
 
 // encKindOf recognises, syntactically, which base32 encoding a value denotes.
